@@ -298,17 +298,27 @@ type Spec struct {
 type litKey struct {
 	l *ast.FuncLit
 	d int
+	q bool
 }
 
-func (sp *Spec) runLit(pkg *packages.Package, lit *ast.FuncLit, depth int) *Result {
+// runLit analyses a function literal. quiet runs are the engine's own nested analyses (a literal met while
+// analysing its enclosing function): they do not call the rule's Visit hook, which would otherwise see the
+// literal's nodes with an empty initial state.
+func (sp *Spec) runLit(pkg *packages.Package, lit *ast.FuncLit, depth int, quiet ...bool) *Result {
 	if sp.lits == nil {
 		sp.lits = map[litKey]*Result{}
 	}
-	k := litKey{lit, depth}
+	q := len(quiet) > 0 && quiet[0]
+	k := litKey{lit, depth, q}
 	if r, ok := sp.lits[k]; ok {
 		return r
 	}
+	saved := sp.Visit
+	if q {
+		sp.Visit = nil
+	}
 	r := sp.run(pkg, lit.Type, lit.Body, sp.W.LitCFG(pkg, lit), depth, nil)
+	sp.Visit = saved
 	sp.lits[k] = r
 	return r
 }
@@ -968,7 +978,7 @@ func (r *runner) deferOrGo(b *cfg.Block, c *ast.CallExpr, st *State, prefix stri
 		r.evalExpr(b, a, st)
 	}
 	if lit, ok := ast.Unparen(c.Fun).(*ast.FuncLit); ok {
-		sub := r.sp.runLit(r.pkg, lit, r.depth)
+		sub := r.sp.runLit(r.pkg, lit, r.depth, true)
 		if prefix == "go:" {
 			r.useFreeVars(lit, st)
 		}
@@ -1028,7 +1038,7 @@ func (r *runner) evalExpr(b *cfg.Block, e ast.Expr, st *State) {
 		return
 	case *ast.FuncLit:
 		// calls inside a function value may happen later: may-events only
-		sub := r.sp.runLit(r.pkg, x, r.depth)
+		sub := r.sp.runLit(r.pkg, x, r.depth, true)
 		for t := range sub.Sum.May {
 			st.May[t] = true
 		}
@@ -1124,7 +1134,7 @@ func (r *runner) call(b *cfg.Block, c *ast.CallExpr, st *State, valueUsed bool) 
 		r.evalExpr(b, f.X, st)
 	case *ast.FuncLit:
 		// immediately invoked literal: analyse inline as may/must events
-		sub := r.sp.runLit(r.pkg, f, r.depth)
+		sub := r.sp.runLit(r.pkg, f, r.depth, true)
 		for t := range sub.Sum.MustAll {
 			r.addTag(st, t)
 		}
